@@ -29,7 +29,7 @@ for feature in ("", "uuid"):
             dup.add(k)
         out[k] = names
         if not b.get("reachable_pub"):
-            sigs_[k] = [[F._erase_lt(x_) for x_ in (b.get("inputs") or [])], F._erase_lt(b.get("output") or "")]
+            sigs_[k] = [[F._erase_lt(x_) for x_ in (b.get("inputs") or [])], F._erase_lt(b.get("output") or ""), F.line_of(b.get("sp") or "") or 0]
 for k in dup:
     del out[k]
 json.dump(out, open(F.PARAM_NAMES_FILE, "w"), indent=0, sort_keys=True)
